@@ -291,7 +291,11 @@ type inlineState struct {
 
 func (state *inlineState) spanEnd() int {
 	if state.unparsedPos >= len(state.unparsed) {
-		return len(state.source)
+		if len(state.unparsed) == 0 {
+			return len(state.source)
+		}
+		// Past the last span: nothing beyond the end of the container's text may be consumed.
+		return state.unparsed[len(state.unparsed)-1].Span().End
 	}
 	return state.unparsed[state.unparsedPos].Span().End
 }
